@@ -40,13 +40,17 @@ def run(tier: str) -> int:
     rep = Report("C12", tier, "model_checking")
     engine_check("C12", tier, rep=rep, finish=False)
     rs = np.random.RandomState(rep.seed % 2**32)
-    nrun = 6 if tier == "quick" else 40
+    nrun = 7 if tier == "quick" else 42
     steps = 40 if tier == "quick" else 200
     for it in range(nrun):
         n = int(rs.randint(3, 7))
-        kind = ["canon_veto", "canon_composite", "canon_molecule", "hmc", "fbmc", "fbmc_fictitious_masses"][it % 6]
+        kind = ["canon_veto", "canon_composite", "canon_molecule", "hmc", "fbmc", "fbmc_fictitious_masses", "canon_far_small_steps"][it % 7]
         for constraint in ("fixcom", "fixatoms"):
             atoms = cluster(rs, n)
+            if kind == "canon_far_small_steps":
+                # a cluster far from the origin moved in small steps: the shifts by which FixCom compensates a trial are tiny
+                # RELATIVE to the coordinates; a rejected trial must still be undone for every atom
+                atoms.positions += np.array([3000.0, -2500.0, 4000.0])
             fixed = sorted(rs.choice(n, size=int(rs.randint(1, n - 1)), replace=False).tolist())
             atoms.set_constraint(FixCom() if constraint == "fixcom" else FixAtoms(indices=fixed))
             com0 = atoms.get_center_of_mass().copy()
@@ -68,6 +72,8 @@ def run(tier: str) -> int:
                         d.check_move = veto
                         d.max_attempts = 2
                         mc.add_move(d)
+                    elif kind == "canon_far_small_steps":
+                        mc.add_move(DisplacementMove(np.arange(n), Ball(0.03)))
                     elif kind == "canon_composite":
                         mc.add_move(DisplacementMove(np.arange(n), Box(0.3)) * 2 + DisplacementMove(np.arange(n)[::-1].copy(), Ball(0.2)), criteria=CanonicalCriteria())
                     else:
